@@ -219,3 +219,12 @@ def dur_unit_ratios():
     assert Duration(years=1) >= Duration(days=CALENDAR.DAYS_IN_YEAR) \
         and Duration(years=1) <= Duration(days=CALENDAR.DAYS_IN_YEAR)
     assert Duration(months=1) >= Duration(days=30) and Duration(months=1) <= Duration(days=30)
+
+
+# ---------------------------------------------------------------- truncated addition (C20)
+def truncated_commutes_and_idempotent(t, p):
+    r1 = t + p
+    r2 = p + t
+    assert instant(r1) == instant(r2) and same_zone(r1, r2)
+    r3 = t + r1
+    assert instant(r3) == instant(r1)
